@@ -275,6 +275,11 @@ def run(ctx):
                                   f'is_subhint(A, B) and is_subhint(B, C) but not is_subhint(A, C): A = {HS.src(terms[a])}, B = {HS.src(terms[b])}, C = {HS.src(terms[c])}',
                                   {'a': terms[a], 'b': terms[b], 'c': terms[c]})
                     continue
+                if terms[a][0] == terms[b][0] == terms[c][0] == 'call':
+                    ctx.violation('transitive:callable-parameter-comparison',
+                                  f'is_subhint(A, B) and is_subhint(B, C) but not is_subhint(A, C): A = {HS.src(terms[a])}, B = {HS.src(terms[b])}, C = {HS.src(terms[c])}',
+                                  {'a': terms[a], 'b': terms[b], 'c': terms[c]})
+                    continue
                 ctx.violation(f'transitive:{HE.shape(terms[a])}<={HE.shape(terms[b])}<={HE.shape(terms[c])}',
                               f'is_subhint(A, B) and is_subhint(B, C) but not is_subhint(A, C): A = {HS.src(terms[a])}, B = {HS.src(terms[b])}, C = {HS.src(terms[c])}',
                               {'a': terms[a], 'b': terms[b], 'c': terms[c]})
